@@ -20,6 +20,7 @@ def md6_event(d, key, L, r, M, bitlen):
     return e
 
 def run(ctx):
+    ctx.claim_exhaustive = False      # keys / messages / parameters are sampled over an enumerated grid; only the spec-level models are exhaustive
     rnd = ctx.rnd; big = ctx.big()
     res = tlc.run(os.path.join(tlc.SPEC, 'selftest', 'ST_Md6Thm.tla'), timeout=900)
     if res['errors'] or res['rc'] != 0 or res['timed_out']: raise core.Machinery('ST_Md6Thm (plan theorems) failed: %s' % res['stdout'][-1500:])
